@@ -122,6 +122,8 @@ func sampleTyped(rng *rand.Rand, pkg CorpusPkg, mode Mode, i int) CScenario {
 		Override: rng.Intn(2) == 0,
 		// half of the scenarios give the server the user's own NotFound and MethodNotAllowed handlers
 		CustomNF: rng.Intn(2) == 0,
+		// a third of the scenarios: the handler answers from canned response objects shared between requests
+		SharedResp: rng.Intn(3) == 0,
 	}
 	switch rng.Intn(4) {
 	case 0:
@@ -322,6 +324,11 @@ func typedDeliver(r *CRecord, pkg string, ds *deliverSet) []problem {
 	if f := r.Call.Fault; f != nil && f.Kind != "dup" && f.Kind != "replay" {
 		return nil
 	}
+	for _, s := range r.Sides {
+		if s.SecurityRefused {
+			return nil // the application itself refused the call
+		}
+	}
 	var out []problem
 	rs := reachedSide(t)
 	// Which variant of a sum of number kinds a number of the whole width selects (an integral 1e21: integer or
@@ -391,7 +398,7 @@ func typedC15(r *CRecord, pkg string) []problem {
 			add("the error handler is shown the rejected body of this request, and it stays what it is", fmt.Sprintf("delivery %d: not this request's: %v, changed while held: %v", i, s.DecodeErrBodyForeign, s.DecodeErrBodyChanged))
 		}
 		optionsPreflight := k == "method" && r.Call.Fault.Arg == "OPTIONS" && s.Status == 204
-		if s.MiddlewareOps == 0 && s.Explicit && !ogenStatuses[s.Status] && !optionsPreflight {
+		if s.MiddlewareOps == 0 && s.Explicit && !ogenStatuses[s.Status] && !optionsPreflight && !(s.NewErrorStatus != 0 && s.Status == s.NewErrorStatus) {
 			add("a request that does not reach the handler is answered 404/405/401/400/415", fmt.Sprintf("delivery %d: status %d without reaching the handler", i, s.Status))
 		}
 		// (a digit, sign, point or exponent letter may simply continue a body that is a bare number: "5" + "1" is 51)
@@ -659,7 +666,7 @@ func (e *Engine) checkTyped(c *core.Ctx, id string) ([]core.Violation, map[strin
 				eval(cr, true)
 			}
 			if r.InputChanged != "" && (id == "C19" || id == "C01") {
-				ps = append(ps, failure{i, problem{"a value the caller owns and passes in is not modified", clip(r.InputChanged, 600), "typed/caller input modified/" + pkg}, nil})
+				ps = append(ps, failure{i, problem{"a value the application owns (an argument of the caller, a response object the handler keeps) is not modified", clip(r.InputChanged, 600), "typed/caller input modified/" + pkg}, nil})
 			}
 			if id == "C19" && r.Deadlock != "" {
 				ps = append(ps, failure{i, problem{"no task blocks forever (bubble deadlock)", clip(r.Deadlock, 1200), "typed/deadlock/" + pkg}, nil})
